@@ -164,6 +164,83 @@ def opt_key(o):
     return json.dumps(o, sort_keys=True)
 
 
+def _kind_preserving_scalar(name):
+    """A pass-through scalar (what `JSON` scalars are) whose literal parser keeps the kind of the literal."""
+    from py_gql.lang import ast as A
+    from py_gql.schema import ScalarType
+
+    def lit(node, variables=None):
+        if isinstance(node, A.IntValue):
+            return int(node.value)
+        if isinstance(node, A.FloatValue):
+            return float(node.value)
+        return node.value
+
+    return ScalarType(name, lambda v: v, lambda v: v, lit)
+
+
+def _typed(v):
+    return (type(v).__name__, v)
+
+
+def equal_defaults_probe(ctx, rng):
+    """Defaults of one pass-through scalar object that are equal as python values without being the same value
+    (1 == True == 1.0, 0 == False == 0.0, hash-equal too): each has to be printed as what it is, whatever was printed
+    before in this process, by this schema or by another schema using the same scalar object."""
+    import py_gql
+    from py_gql.schema import Argument, Field, InputField, InputObjectType, ObjectType, Schema, String
+
+    # (no number-like strings: printing those as numbers is a listed known finding of its own)
+    pool = [1, True, 1.0, 0, False, 0.0, -1, -1.0, 2, 2.0, "one", "true", 10, 10.0]
+    js = _kind_preserving_scalar("JSON")
+    for hi in range(ctx.n(6)):
+        schemas = []
+        for si in range(rng.randint(2, 3)):
+            values = [rng.choice(pool) for _ in range(rng.randint(2, 6))]
+            args = [Argument("a%d" % i, js, default_value=v) for i, v in enumerate(values)]
+            inp = InputObjectType("In%d" % si, [InputField("f%d" % i, js, default_value=v) for i, v in enumerate(reversed(values))])
+            q = ObjectType("Query", [Field("f", String, args), Field("g", String, [Argument("i", inp)])])
+            schemas.append((Schema(q), values))
+        first = {}
+        for ci in range(rng.randint(4, 10)):
+            si = rng.randrange(len(schemas))
+            schema, values = schemas[si]
+            w = {"class": "equal-but-distinct defaults of one pass-through scalar", "defaults": [repr(v) for v in values],
+                 "schema_index": si, "call_index": ci, "defaults_of_all_schemas": [[repr(v) for v in vs] for _s, vs in schemas]}
+            ctx.evaluated()
+            ctx.count("equal_defaults_calls")
+            try:
+                text = schema.to_string()
+            except Exception as e:
+                ctx.violation("equal-defaults:print-raises:%s" % type(e).__name__, w, repr(e)[:200])
+                return
+            if si in first and first[si] != text:
+                ctx.violation("purity:repeated-call-differs", dict(w, first=first[si][:800], now=text[:800]), "")
+                return
+            first.setdefault(si, text)
+            try:
+                rebuilt = py_gql.build_schema(text, additional_types=[_kind_preserving_scalar("JSON")])
+            except Exception as e:
+                ctx.violation("equal-defaults:rebuild-raises:%s" % type(e).__name__, dict(w, printed=text[:800]), repr(e)[:200])
+                return
+            got = [_typed(a.default_value) for a in rebuilt.get_type("Query").field_map["f"].arguments]
+            want = [_typed(v) for v in values]
+            if got != want:
+                ctx.violation("roundtrip:equal-defaults-of-a-pass-through-scalar-confused", dict(w, printed=text[:800]),
+                              "declared %r, rebuilt from the printed text %r" % (want, got))
+                return
+            got = [_typed(f.default_value) for f in rebuilt.get_type("In%d" % si).fields]
+            want = [_typed(v) for v in reversed(values)]
+            if got != want:
+                ctx.violation("roundtrip:equal-defaults-of-a-pass-through-scalar-confused", dict(w, printed=text[:800]),
+                              "input fields: declared %r, rebuilt from the printed text %r" % (want, got))
+                return
+            ctx.count("equal_defaults_roundtrips_ok")
+            if len(set(map(_typed, values))) > len(set(values)):
+                ctx.count("equal_defaults_schemas_with_a_colliding_pair")
+                ctx.mark_nontrivial(["equal-defaults", [repr(v) for v in values], hi, ci])
+
+
 def run(ctx):
     import py_gql
     from py_gql.lang import parse
@@ -300,6 +377,8 @@ def run(ctx):
         ctx.count("distinct_keys", len(outputs))
         some = list(outputs.items())[0]
         ctx.sample("history", {"calls": n_calls, "distinct_keys": len(outputs), "options": json.loads(some[0][1]), "text": some[1][:400]})
+    equal_defaults_probe(ctx, ctx.rng("equal-defaults"))
+    ctx.require("equal_defaults_schemas_with_a_colliding_pair", 10)
     ctx.require("repeated_calls_compared", 30)
     ctx.require("roundtrips_ok", 20)
     ctx.require("fresh_process_comparisons", 2)
